@@ -65,6 +65,8 @@ func newGroupItem(hookName, colKey, objID string) *groupItem {
 func (s *Server) groupConnect(hookName, colKey, objID string) (groupID string) {
 	g := newGroupItem(hookName, colKey, objID)
 	verifPoint(s, "groups.mutate", "connect", hookName)
+	s.groupMu.Lock()
+	defer s.groupMu.Unlock()
 	s.groupHooks.Set(g)
 	s.groupObjects.Set(g)
 	return g.groupID
@@ -77,11 +79,15 @@ func (s *Server) groupDisconnect(hookName, colKey, objID string) {
 		objID:    objID,
 	}
 	verifPoint(s, "groups.mutate", "disconnect", hookName)
+	s.groupMu.Lock()
+	defer s.groupMu.Unlock()
 	s.groupHooks.Delete(g)
 	s.groupObjects.Delete(g)
 }
 
 func (s *Server) groupGet(hookName, colKey, objID string) (groupID string) {
+	s.groupMu.Lock()
+	defer s.groupMu.Unlock()
 	v := s.groupHooks.Get(&groupItem{
 		hookName: hookName,
 		colKey:   colKey,
@@ -104,6 +110,8 @@ func deleteGroups(s *Server, groups []*groupItem) {
 
 // groupDisconnectObject disconnects all hooks from provide object
 func (s *Server) groupDisconnectObject(colKey, objID string) {
+	s.groupMu.Lock()
+	defer s.groupMu.Unlock()
 	var groups []*groupItem
 	s.groupObjects.Ascend(&groupItem{colKey: colKey, objID: objID},
 		func(v interface{}) bool {
@@ -121,6 +129,8 @@ func (s *Server) groupDisconnectObject(colKey, objID string) {
 // groupDisconnectCollection disconnects all hooks from objects in provided
 // collection.
 func (s *Server) groupDisconnectCollection(colKey string) {
+	s.groupMu.Lock()
+	defer s.groupMu.Unlock()
 	var groups []*groupItem
 	s.groupObjects.Ascend(&groupItem{colKey: colKey},
 		func(v interface{}) bool {
@@ -137,6 +147,8 @@ func (s *Server) groupDisconnectCollection(colKey string) {
 
 // groupDisconnectHook disconnects all objects from provided hook.
 func (s *Server) groupDisconnectHook(hookName string) {
+	s.groupMu.Lock()
+	defer s.groupMu.Unlock()
 	var groups []*groupItem
 	s.groupHooks.Ascend(&groupItem{hookName: hookName},
 		func(v interface{}) bool {
